@@ -174,6 +174,16 @@ class World:
             self.itf_info.append({'fqn': ifqn, 'name': iname, 'events': events, 'ev_names': ev_names, 'evs': evs,
                                   'extern': extern, 'ext_val': ext_val, 'ext_sym': ext_sym, 'enum': enum,
                                   'enum_sym': enum_sym, 'enum_fields': enum_fields, 'ns': ins})
+            if ex.get('formal_type') == 'shadowed' and ii == 0:
+                # an ENUM with the extern's name declared nearer on the scope chain: two declarations of different
+                # kinds are found -> the build must fail instead of picking the one of the wanted kind
+                self.enums.append(self.new(A, 'Enum', fqn=self.ns(ins + [ext_sym]), parent_ns=ptree,
+                                           name=self.scope_name([ext_sym]),
+                                           fields=self.new(A, 'Fields', elements=self.lst([self.ident('shadow_f0')]))))
+                # the extern itself lives one namespace further out
+                self.externs[-1] = self.new(A, 'Extern', fqn=self.ns(ins[:-1] + [ext_sym]),
+                                            parent_ns=self.tree(ins[:-1]), name=self.scope_name([ext_sym]),
+                                            value=self.new(A, 'Data', value=ext_val))
             if ex.get('formal_type') == 'ambiguous' and ii == 0:
                 # a second extern with the same name one namespace further out: both are on the scope chain
                 outer = ins[:-1]
@@ -258,8 +268,8 @@ class World:
                 x = self.ident('not_a_port')
                 self.distinct([x] + self.port_names)
                 return self.new(self.ps, 'PortSelect', value=self.I.make_set([x], self.p))
-            idx = int(kind[3:])
-            return self.new(self.ps, 'PortSelect', value=self.I.make_set([side_names[idx]], self.p))
+            idxs = [int(c) for c in kind[3:]]
+            return self.new(self.ps, 'PortSelect', value=self.I.make_set([side_names[i] for i in idxs], self.p))
         prov_names = [i['name'] for i in self.port_info if i['dir'] == 'provides']
         req_names = [i['name'] for i in self.port_info if i['dir'] == 'requires' and not i['injected']]
         pk = {'ALL_MTS': ('NONE', 'ALL'), 'ALL_STS': ('ALL', 'NONE')}[sh['prov']]
@@ -336,9 +346,9 @@ class World:
             return None
         req_idx = [k for k, i in enumerate(self.port_info) if i['dir'] == 'requires' and not i['injected']].index(pi)
         sts, mts = sh['req']
-        if sts == f'SET{req_idx}':
+        if sts.startswith('SET') and str(req_idx) in sts[3:]:
             return 'STS'
-        if mts == f'SET{req_idx}':
+        if mts.startswith('SET') and str(req_idx) in mts[3:]:
             return 'MTS'
         if sts in ('ALL', 'REMAINING'):
             return 'STS'
